@@ -1731,6 +1731,23 @@ def nonempty_regex_rule(cx, rep, rid):
                     tg = F._callee_gid(f.crate, cal or "")
                     if tg in F.hir and "String" in (F.fns[tg].output or ""):
                         producers.append(tg)
+            if not producers:
+                # the text is a parameter of a small builder (`regex_lit(text)`): judged at the callers, for the argument
+                plids = [p_.get("lid") if p_["k"] == "P.Binding" else None for p_ in t["params"]]
+                used = [plids.index(x.get("lid")) for x in walk(exp) if x["k"] == "Path" and x.get("lid") in plids]
+                if used:
+                    for g2, t2 in F.hir.items():
+                        f2 = F.fns.get(g2)
+                        if f2 is None or "/src/print/" not in (f2.file or ""):
+                            continue
+                        for c2 in walk(t2["body"]):
+                            if c2["k"] == "Call" and F._callee_gid(f2.crate, c2.get("callee") or "") == g and used[0] < len(c2["args"]):
+                                for x in walk(c2["args"][used[0]]):
+                                    if x["k"] in ("Call", "MethodCall"):
+                                        cal = x.get("callee") if x["k"] == "Call" else (x.get("resolved") or x.get("callee"))
+                                        tg = F._callee_gid(f2.crate, cal or "")
+                                        if tg in F.hir and "String" in (F.fns[tg].output or ""):
+                                            producers.append(tg)
             lit = [x for x in walk(exp) if x["k"] == "Lit" and x.get("lit") == "str"]
             ok = bool(lit and all(x.get("v") for x in lit)) if not producers else True
             why = ""
